@@ -293,6 +293,42 @@ def orientation_semantics(repo, col):
     sign_of = {"R": 1, "A": 1, "S": 1, "L": -1, "P": -1, "I": -1}
     codes = ["".join(p) for t in itertools.product("LR", "AP", "IS")
              for p in itertools.permutations(t)]
+    # re-orientation constructs that are NOT among the statements modelled
+    # above (flips / axis moves applied to another array, or in a helper):
+    # the model is then incomplete and a mismatch proves nothing
+    modelled = {id(v) for _, v in steps}
+    from .core import helper_closure as _hc
+    extra_ops = []
+    # what builds the block in input order (the `start` step and the loader
+    # it calls) is the model's starting point, not a later re-orientation
+    from .core import resolve_local_call as _rlc, calls_in as _ci
+    loader_nodes = set()
+    for kind_, v_ in steps:
+        if kind_ != "start":
+            continue
+        for c_ in _ci(v_):
+            h_ = _rlc(fn, c_)
+            if h_ is not None:
+                for hh in _hc(h_, 1):
+                    loader_nodes |= {id(y) for y in ast.walk(hh.node)}
+    for f_ in _hc(fn, 2):
+        for x in ast.walk(f_.node):
+            if id(x) in loader_nodes:
+                continue
+            if id(x) in modelled:
+                continue
+            if isinstance(x, ast.Call) and (call_name(x) or "").split(
+                    ".")[-1] in ("moveaxis", "transpose", "flip", "swapaxes",
+                                 "rollaxis", "fliplr", "flipud"):
+                if not any(x is v or any(x is y for y in ast.walk(v))
+                           for _, v in steps):
+                    extra_ops.append(x)
+            if isinstance(x, ast.Subscript) and isinstance(x.slice, ast.Tuple) \
+                    and any(isinstance(e, ast.Slice) and e.step is not None
+                            for e in x.slice.elts):
+                if not any(x is v or any(x is y for y in ast.walk(v))
+                           for _, v in steps):
+                    extra_ops.append(x)
     n = 0
     bad = []
     # per-axis vectors moved between volume order (X, Y, Z) and input order
@@ -398,10 +434,14 @@ def orientation_semantics(repo, col):
         ok = axes == want
         if not ok:
             bad.append(code)
-        col.add(rule, fn, "code %s" % code, ok,
-                "" if ok else "for orientation %s the block ends up as %s "
-                "(position = C,Z,Y,X; sign -1 = reversed); the code "
-                "designates %s" % (code, axes, want))
+        col.add(rule, fn, "code %s" % code, ok or bool(extra_ops),
+                "" if ok else ("the block is also re-oriented by `%s`, which "
+                               "this model does not include"
+                               % norm(extra_ops[0])[:50] if extra_ops else
+                               "for orientation %s the block ends up as %s "
+                               "(position = C,Z,Y,X; sign -1 = reversed); the "
+                               "code designates %s" % (code, axes, want)),
+                undecided=not ok and bool(extra_ops))
     for c in perm_calls:
         b = vec_bad[id(c)]
         if b:
